@@ -302,6 +302,8 @@ def out_schema(nd, schemas: Dict[int, Sch], case) -> Sch:
         return Sch(cols, keys, s.maybe_empty)
     if op == "order_rows":
         o = schemas[nd["src"]].copy()
+        if nd.get("limit") == 0:
+            o.maybe_empty = True  # limit 0 empties even the one row of an ungrouped project
         return o
     if op == "natural_join":
         a, b = schemas[nd["a"]], schemas[nd["b"]]
